@@ -1,0 +1,102 @@
+//go:build verif
+
+package auth
+
+import (
+	"context"
+	"encoding/json"
+	"testing"
+
+	"github.com/alicebob/miniredis/v2"
+	"github.com/gotid/god/internal/verifdrv"
+	"github.com/gotid/god/lib/store/redis"
+	"google.golang.org/grpc/codes"
+	"google.golang.org/grpc/metadata"
+	"google.golang.org/grpc/status"
+)
+
+type verifOp struct {
+	Op     string   `json:"op"` // set | del | down | up | call
+	App    string   `json:"app"`
+	Token  string   `json:"token"`
+	NoMd   bool     `json:"nomd"`   // call: context without incoming metadata
+	Apps   []string `json:"apps"`   // call: values of the "app" metadata key
+	Tokens []string `json:"tokens"` // call: values of the "token" metadata key
+}
+
+type verifCase struct {
+	Strict bool      `json:"strict"`
+	Ops    []verifOp `json:"ops"`
+}
+
+// TestVerifDriver runs Authenticate over a history of store mutations, outages and calls against
+// one Authenticator (so that its cache evolves) backed by a miniredis hash.
+func TestVerifDriver(t *testing.T) {
+	verifdrv.Run(t, func(raw json.RawMessage) any {
+		var c verifCase
+		if err := json.Unmarshal(raw, &c); err != nil {
+			return map[string]any{"error": err.Error()}
+		}
+		mr, err := miniredis.Run()
+		if err != nil {
+			return map[string]any{"error": err.Error()}
+		}
+		up := true
+		defer func() {
+			if up {
+				mr.Close()
+			}
+		}()
+		a, err := NewAuthenticator(redis.New(mr.Addr()), "apps", c.Strict)
+		if err != nil {
+			return map[string]any{"error": err.Error()}
+		}
+		type row struct {
+			Code int `json:"code"` // grpc code, -1 for a non-status error
+		}
+		rows := []row{}
+		for _, op := range c.Ops {
+			switch op.Op {
+			case "set":
+				mr.HSet("apps", op.App, op.Token)
+			case "del":
+				mr.HDel("apps", op.App)
+			case "down":
+				if up {
+					mr.Close()
+					up = false
+				}
+			case "up":
+				if !up {
+					if err := mr.Restart(); err != nil {
+						return map[string]any{"error": "restart: " + err.Error()}
+					}
+					up = true
+				}
+			case "call":
+				ctx := context.Background()
+				if !op.NoMd {
+					md := metadata.MD{}
+					if op.Apps != nil {
+						md[appKey] = op.Apps
+					}
+					if op.Tokens != nil {
+						md[tokenKey] = op.Tokens
+					}
+					ctx = metadata.NewIncomingContext(ctx, md)
+				}
+				err := a.Authenticate(ctx)
+				code := int(codes.OK)
+				if err != nil {
+					if st, ok := status.FromError(err); ok {
+						code = int(st.Code())
+					} else {
+						code = -1
+					}
+				}
+				rows = append(rows, row{Code: code})
+			}
+		}
+		return map[string]any{"rows": rows}
+	})
+}
